@@ -51,7 +51,7 @@ package connectconformance
 //@ func runTestCasesForServer
 //@   requires wfResults(results) && startServer != nil && client != nil && logPrinter != nil && errPrinter != nil && ctx != nil
 //@   requires (forall i int :: 0 <= i && i < len(testCases) ==> testCases[i] != nil && testCases[i].Request != nil) && len(testCases) <= 1073741824
-//@   modifies held, atomicI32, map[string]testOutcome, sendOK, startedProc, abortN, chanClosed, selWait, wrOut, wireFmt, rdPos, mapof(tracer.Tracer.traces), tracer.Tracer.traces,
+//@   modifies prN, held, atomicI32, map[string]testOutcome, sendOK, startedProc, abortN, chanClosed, selWait, wrOut, wireFmt, rdPos, mapof(tracer.Tracer.traces), tracer.Tracer.traces,
 //@            map[string]struct{}, map[string]string, []*conformancev1.Header, conformancev1.ClientCompatRequest.*, conformancev1.ServerCompatResponse.*, conformancev1.ClientCompatResponse.*, conformancev1.RawHTTPRequest.Headers
 //@   ensures @stopped startedProc[0] != old(startedProc[0]) && startedProc[0] != nil ==> abortN[startedProc[0].processController] > old(abortN)[startedProc[0].processController] //# a server that was started is asked to stop
 //@   ensures @accounted forall i int :: 0 <= i && i < len(testCases) ==>
@@ -75,6 +75,6 @@ package connectconformance
 //@   requires err == nil ==> resp != nil
 //@   requires resp != nil ==> (typeis(resp.Result, *conformancev1.ClientCompatResponse_Error) ==> unbox(resp.Result, *conformancev1.ClientCompatResponse_Error) != nil) &&
 //@        (typeis(resp.Result, *conformancev1.ClientCompatResponse_Response) ==> unbox(resp.Result, *conformancev1.ClientCompatResponse_Response) != nil) //# oneof wrappers of a decoded message are never nil pointers
-//@   modifies held, atomicI32, map[string]testOutcome, map[string]string, *[]error, []error
+//@   modifies prN, held, atomicI32, map[string]testOutcome, map[string]string, *[]error, []error
 //@   ensures @recorded has(results.outcomes, name)
 //@   ensures @setup err != nil ==> results.outcomes[name].setupError && results.outcomes[name].actualFailure == err
